@@ -216,6 +216,10 @@ def to_frame(tb: Table, index="default", names=None):
         df.index = pd.DatetimeIndex(tb.time)
     elif index == "reversed":
         df.index = list(range(n))[::-1]
+    elif index == "duplicated":
+        df.index = [i // 2 for i in range(n)]
+    elif index == "constant":
+        df.index = [7] * n
     return df
 
 
